@@ -54,6 +54,8 @@ func config(name string) pmc.Cfg {
 	switch name {
 	case "K1": // 4 equal, Byzantine = leader of view 1
 		c.C, c.Byz = kit.EqualCommittee(4), []int{1}
+	case "K1L": // as K1, member ids share a 10-byte prefix
+		c.C, c.Byz = kit.LongIDCommittee(4), []int{1}
 	case "K2": // 4 equal, Byzantine = leader of view 0 (equivocating proposer, honest next leaders)
 		c.C, c.Byz = kit.EqualCommittee(4), []int{0}
 	case "K3": // weights 1,2,3,4 (W=10, f=3, Q=7), Byzantine = member of weight 3 (leader of view 2)
@@ -163,6 +165,7 @@ func plan(prop, tier string) []run {
 		add("K3b@v0e", "M2", 0, 15*time.Second) // weighted, two Byzantine members: exhaustive
 		add("K1@v1e", "M1", 0, 15*time.Second)  // eager PREPARE/COMMIT, one view change: exhaustive
 		add("K3~d", "M1", 0, 10*time.Second)    // weighted committee, descending storage order
+		add("K1L@v1", "M1", 0, 10*time.Second)  // long member ids with a common prefix
 		add("K1@v1", "M1", -1, 10*time.Second)  // L2: every single-delivery order (no flush macro), one view change
 		add("K2@v0e", "M2", -1, 15*time.Second) // L2 under an equivocating proposer
 		add("K2^2@v0e", "M2", 0, 15*time.Second) // two heights, equivocating proposer at both: exhaustive
